@@ -546,6 +546,20 @@ def report_violations(prop_id, mod, seed, args, viols, t0, agg, pre, st=None):
         path = os.path.join(VERIF, "out", "replays", name)
         with open(path, "w") as f:
             json.dump(rp, f, indent=1, default=_json_default)
+        # the replay file is proved the way a reader will use it: `check.py <ID> --replay <file>` in a FRESH interpreter.
+        # A failure that depends on the state of the process (heap addresses, ...) may reproduce inside this process and not
+        # there: then the file falls back to replaying the whole world job, and says so.
+        if sc is not None and not args.no_minimize:
+            ok = _replay_in_fresh_interpreter(prop_id, path, rule)
+            if not ok and rp.get("world_replay") is None and v.get("world_seed") is not None:
+                rp["world_replay"] = {"world_seed": v["world_seed"], "runs": args.runs or mod.BUDGET[args.tier]["runs"], "tier": args.tier}
+                rp["minimisation"]["fell_back_to_whole_world"] = True
+                with open(path, "w") as f:
+                    json.dump(rp, f, indent=1, default=_json_default)
+                ok = _replay_in_fresh_interpreter(prop_id, path, rule)
+            rp["minimisation"]["replay_reproduces_in_fresh_interpreter"] = bool(ok)
+            with open(path, "w") as f:
+                json.dump(rp, f, indent=1, default=_json_default)
         print(f"VIOLATION property={prop_id} replay={path}")
         print(f"  rule={rule} {str(v.get('msg'))[:600]}")
     if agg is not None:
@@ -555,6 +569,15 @@ def report_violations(prop_id, mod, seed, args, viols, t0, agg, pre, st=None):
         agg2 = aggregate([])
     write_evidence(prop_id, mod, seed, args.tier, agg2, t0, st, pre, violations=new)
     return 1 if new else 0
+
+
+def _replay_in_fresh_interpreter(prop_id, path, rule):
+    try:
+        p = subprocess.run([sys.executable, os.path.join(VERIF, "check.py"), prop_id, "--replay", path],
+                           capture_output=True, text=True, timeout=600, cwd=VERIF)
+    except Exception:  # noqa
+        return False
+    return p.returncode == 1 and f"rule={rule}" in p.stdout
 
 
 def _signature(mod, spec, sc, rule, op_id):
